@@ -99,15 +99,20 @@ def decoy_operand(draw):
     return draw(st.sampled_from(["zz", "qq", "%r9", "0x77", "rax", "0x1", "%eax", 1]))
 
 
-def with_times(node, t, inside=None):
-    """Attach `times` to a node in one of the YAML spellings the grammar allows."""
+def with_times(node, t):
+    """Attach `times` to a node: inside the body for operand-less items, sibling key otherwise."""
     if isinstance(node, (str, int)):
-        if inside is False:
-            return {node: None, "times": t} if False else {node: {"times": t}}
         return {node: {"times": t}}
     d = dict(node)
     d["times"] = t
     return d
+
+
+def listing_decoy(draw, L, full):
+    """Decoy alternative: half the time a vocabulary item, half the time the description of some instruction of L."""
+    if L and draw(st.booleans()):
+        return describe_inst(draw, L[draw(st.integers(0, len(L) - 1))], full)
+    return draw(decoy_item())
 
 
 def describe_window(draw, L, i, j, full, allow=frozenset(), depth=0, max_depth=2):
@@ -145,7 +150,7 @@ def describe_window(draw, L, i, j, full, allow=frozenset(), depth=0, max_depth=2
             e = draw(st.integers(k + 1, min(j, k + 2)))
             sub = describe_window(draw, L, k, e, full, allow, depth + 1, max_depth)
             good = sub[0] if len(sub) == 1 else {"$and": sub}
-            alts = draw(st.lists(decoy_item(), max_size=2))
+            alts = [listing_decoy(draw, L, full) for _ in range(draw(st.integers(0, 2)))]
             alts.insert(draw(st.integers(0, len(alts))), good)
             nodes.append({"$or": alts})
             k = e
@@ -162,7 +167,7 @@ def describe_window(draw, L, i, j, full, allow=frozenset(), depth=0, max_depth=2
             nodes.append({"$and_any_order": subs})
             k = e
         elif choice == "$not":
-            nodes.append({"$not": [draw(decoy_item())]})
+            nodes.append({"$not": [listing_decoy(draw, L, full)]})
             k += 1
         elif choice == "gtimes":
             w = draw(st.integers(1, min(2, j - k)))
@@ -202,3 +207,63 @@ def random_item(draw):
         if s is not None:
             pats.append(s)
     return {name: pats} if pats else name
+
+
+# ---------------------------------------------------------------------------------- operand-level groups
+
+
+def describe_operands_grouped(draw, ops, full=False, depth=0, max_depth=2, allow=("$or", "$and", "$and_any_order"), exact=False):
+    """(patterns, k): operand patterns, possibly using operand-level operators, that match ops[0:k] by construction.
+
+    exact=True asks for k == len(ops) (returns None if some operand cannot be described literally).
+    """
+    n = len(ops)
+    if n == 0:
+        return [], 0
+    stop = n if exact else draw(st.integers(1, n))
+    pats = []
+    k = 0
+    while k < stop:
+        choice = draw(st.sampled_from(["name", "name"] + list(allow))) if depth < max_depth else "name"
+        if choice == "name":
+            s = describe_operand(draw, ops[k], full)
+            if s is None:
+                break
+            pats.append(s)
+            k += 1
+        elif choice == "$or":
+            e = draw(st.integers(k + 1, min(stop, k + 2)))
+            sub = describe_operands_grouped(draw, ops[k:e], full, depth + 1, max_depth, allow, exact=True)
+            if sub is None:
+                break
+            good = sub[0][0] if len(sub[0]) == 1 else {"$and": sub[0]}
+            alts = [decoy_operand(draw) for _ in range(draw(st.integers(0, 2)))]
+            alts.insert(draw(st.integers(0, len(alts))), good)
+            pats.append({"$or": alts})
+            k = e
+        elif choice == "$and":
+            e = draw(st.integers(k + 1, stop))
+            sub = describe_operands_grouped(draw, ops[k:e], full, depth + 1, max_depth, allow, exact=True)
+            if sub is None:
+                break
+            pats.append({"$and": sub[0]})
+            k = e
+        elif choice == "$and_any_order":
+            e = draw(st.integers(k + 1, min(stop, k + 3)))
+            subs = []
+            kk = k
+            while kk < e:
+                ee = draw(st.integers(kk + 1, e))
+                sub = describe_operands_grouped(draw, ops[kk:ee], full, depth + 1, max_depth, allow, exact=True)
+                if sub is None:
+                    subs = None
+                    break
+                subs.append(sub[0][0] if len(sub[0]) == 1 else {"$and": sub[0]})
+                kk = ee
+            if subs is None:
+                break
+            pats.append({"$and_any_order": list(draw(st.permutations(subs)))})
+            k = e
+    if exact and k != n:
+        return None
+    return pats, k
